@@ -81,6 +81,7 @@ RULE_TITLES = {
     'R50': 'stored integers of values are written only in freshly built objects (values are immutable)',
     'R51': 'no unbound local or free variable on the count path',
     'R52': 'optional source / comment strings are read whenever a quoted token follows',
+    'R56': 'indexes inside range(len(xs) - k) loops of the counting rules stay inside the list',
     'R55': 'QPQ stage bookkeeping (tx, va, vc, tc, quotient, new weight, restart) equals Woodall 2.3-2.5 modulo renaming, in order',
     'R54': 'QPQ: an election by quotient re-weights the winner\'s ballots before the next action is recorded',
     'R53': 'every attribute read from the rule object outside the rules exists for every registered rule class',
@@ -114,7 +115,7 @@ prop('C01',
       ('R38', rr.r38_first_and_last_action), ('R51', nm.r51_no_unbound_names), ('R28', ps.r28_strip_complete),
       # R13: the quota form is what keeps seats+1 candidates from all reaching the quota (more winners than seats);
       # R18: a sure-loser batch holds only candidates that cannot be elected (mpls caps it with the write-ins counted in, see F2(i))
-      ('R13', qt.r13_quota), ('R18', ti.r18_sure_loser_strict), ('R12', mk.r12_iteration_exits), ('R53', nm.r53_rule_interface)],
+      ('R13', qt.r13_quota), ('R18', ti.r18_sure_loser_strict), ('R12', mk.r12_iteration_exits), ('R53', nm.r53_rule_interface), ('R56', nm.r56_index_in_range)],
      'Static analysis of /repo source over the count() of every registered rule class (CFG path rules with a small '
      'path-sensitive fact domain, candidate-derivation dataflow): every path to the end of count() completes a total '
      'elect-or-defeat sweep; every elect site is justified by a quota test, a seat guard or a pending receiver; every batch '
